@@ -283,6 +283,9 @@ func (w *World) takeFork(r *Replica, ri int, f Fault, point string) {
 }
 
 func pointClass(p string) string {
+	if i := strings.Index(p, " and again at "); i >= 0 {
+		return pointClass(p[:i]) + "+again"
+	}
 	if strings.HasPrefix(p, "tx:") {
 		return "tx"
 	}
